@@ -227,8 +227,10 @@ MethodRoutes == {"method_arg", "method_result", "method_result_val"}
 Routes(t, c, mdepth) ==
    ((IF t[1] = "iface" THEN (IF c = "nil0" /\ t = <<"iface", "bool">> THEN {"global"} ELSE {}) ELSE {"global"})
     \cup {"field_read", "field_write"}
+    \* a struct-valued field is written THROUGH: dst.F.A = src.F.A (dst.F.B for s2) must reach the Go struct
+    \cup (IF t[1] \in {"s1", "s2"} THEN {"nested_write"} ELSE {})
     \cup (IF Len(t) - 1 <= mdepth THEN MethodRoutes ELSE {}))
-   \ (IF Rejected(t, c) THEN {"field_write", "method_arg"} ELSE {})
+   \ (IF Rejected(t, c) THEN {"field_write", "nested_write", "method_arg"} ELSE {})
 
 NoLit == Leaf("na", "")
 CasesOf(T, mdepth) == {[t |-> t, c |-> c, r |-> r, w |-> NoLit] : <<t, c, r>> \in
